@@ -20,7 +20,10 @@ class CommandBoundExceeded(Exception):
 
 
 class Bus:
-    def __init__(self, units, bound=10 ** 6):
+    def __init__(self, units, bound=10 ** 6, collision_as_silence=False):
+        # collision_as_silence: what a sequence sees behind a gateway whose protocol cannot hand a garbled backward frame
+        # to the host (the serial gateways): colliding answers arrive as 'no answer'
+        self.collision_as_silence = collision_as_silence
         self.units = list(units)
         self.bound = bound
         self.log = []            # (width, value, answer) per transmitted frame
@@ -68,6 +71,8 @@ class Bus:
                 out = ("collision", out[1] if out else 0)
             elif isinstance(fault, int):
                 out = ("ok", fault)
+        if self.collision_as_silence and out is not None and out[0] == "collision":
+            out = None
         self.command_answers.append(out)
         if cmd.response is None:
             return None
